@@ -124,18 +124,34 @@ var c09Programs = []c09Program{
 	{"shared-importer", `import lib; from lib import twice; lib.add(n, 1) + twice(n)`,
 		func(a int) map[string]any { return map[string]any{"n": a} },
 		func(a int) string { return c09Itoa(a + 1 + 2*a) }},
+	{"shared-local-importer", `import dirlib; dirlib.triple(n) + dirlib.base`,
+		func(a int) map[string]any { return map[string]any{"n": a} },
+		func(a int) string { return c09Itoa(3*a + 7) }},
 	{"plain", `l := [n, 2, 3].map(func(x) { return x * 2 }); l[0] + l[2] + len(sorted(l))`,
 		func(a int) map[string]any { return map[string]any{"n": a} },
 		func(a int) string { return c09Itoa(2*a + 6 + 3) }},
 }
 
 func c09Evaluate(p c09Program, a int, im importer.Importer) c09Result {
+	if p.name == "shared-local-importer" {
+		im = c09Local
+	}
 	globals, names := c09Globals(p.globals(a))
 	code, err := c09Compile(p.src, names)
 	if err != nil {
 		return c09Result{err: "compile: " + err.Error()}
 	}
 	return c09RunCode(code, globals, WithImporter(im))
+}
+
+// c09Local: a LocalImporter (reads files below a source directory) shared by
+// the evaluations of one harness run; set by the harness before the goroutines start.
+var c09Local importer.Importer
+
+func c09LocalImporter() (importer.Importer, string) {
+	_, names := c09Globals(map[string]any{"n": 0})
+	dir := verifrt.TempDirWithFiles(map[string]string{"dirlib.risor": "base := 7\nfunc triple(x) { return 3 * x }\n"})
+	return importer.NewLocalImporter(importer.LocalImporterOptions{GlobalNames: names, SourceDir: dir}), dir
 }
 
 func c09SharedImporter() importer.Importer {
@@ -162,6 +178,9 @@ func HarnessC09ConcurrentEvaluations() {
 		as[i] = int(verifrt.Int16())
 	}
 	im := c09SharedImporter()
+	var dir string
+	c09Local, dir = c09LocalImporter()
+	defer verifrt.RemoveTempDir(dir)
 	verifrt.RaceDetect("no-data-race")
 	res := make([]c09Result, n)
 	var wg sync.WaitGroup
